@@ -225,8 +225,9 @@ class Context(DataProxy):
         # config-driven "override vs merge" semantics.
         # TODO: if/when those semantics are implemented, use them instead.
         # NOTE: config value for watchers defaults to an empty list; and we
-        # want to clone it to avoid actually mutating the config.
-        watchers = kwargs.pop("watchers", list(self.config.run.watchers))
+        # want to clone it to avoid actually mutating the config. The same
+        # goes for a list handed in by the caller.
+        watchers = list(kwargs.pop("watchers", self.config.run.watchers))
         watchers.append(watcher)
         try:
             return runner.run(cmd_str, watchers=watchers, **kwargs)
